@@ -88,37 +88,30 @@ theorem freq_ascending_counterexample :
     ¬ ([3, 7, 1004 / 100, 1001 / 100, 15, 20] : List ℚ).Pairwise (· ≤ ·) :=
   freq_ascending_cex
 
-/-- EXACT shape behaviour of the sparse path (`zeros((n, num_eigvalues))[used_cols, :] = peigvecs`): a
-shape-mismatch error unless `eigs` delivered exactly `num_eigvalues` columns (or one); in that case `freq`
-returns (the sort needs no more values than columns). -/
-theorem freq_sparse_shapes {K : Type} [Field K] [LinearOrder K] [IsStrictOrderedRing K] [FloorRing K]
+/-- TOTALITY of the repaired sparse path (/repo 3692045: `zeros((n, peigvecs.shape[1]))`): for every size,
+every `num_eigvalues` and every number of delivered columns `freq` returns; residual precondition = the
+solver's contract (one row per active amplitude, no more values than vectors). -/
+theorem freq_sparse_shapes_total {K : Type} [Field K] [LinearOrder K] [IsStrictOrderedRing K] [FloorRing K]
     [DecidableEq K] {F : Type} [Zero F] (n num : Nat) (sort reduced : Bool) (Kc Mc : Coo K)
     (sqrtV : List F → List F) (negInv : F → F) (re im : F → K) (o : Out F F)
-    (hrows : o.vecs.rows = (usedCols n Kc).length) :
-    (¬ (o.vecs.ncols = num ∨ o.vecs.ncols = 1) →
-      (freq n num true sort reduced Kc Mc sqrtV negInv re im (some o)).2 =
-        .error (.shapeMismatch (o.vecs.rows, o.vecs.ncols) ((usedCols n Kc).length, num))) ∧
-    ((o.vecs.ncols = num ∨ o.vecs.ncols = 1) → (sqrtV o.vals).length ≤ num →
-      ∃ r, (freq n num true sort reduced Kc Mc sqrtV negInv re im (some o)).2 = .ok r) :=
-  freq_sparse_shape_aux n num sort reduced Kc Mc sqrtV negInv re im o hrows
-
-/-- The weaker TRUE shape statement for the sparse path: with `eigs` delivering `k = min(num, n-2)` pairs,
-`freq` returns whenever `num ≤ n-2`. -/
-theorem freq_shapes_partial {K : Type} [Field K] [LinearOrder K] [IsStrictOrderedRing K] [FloorRing K]
-    [DecidableEq K] {F : Type} [Zero F] (n num : Nat) (sort reduced : Bool) (Kc Mc : Coo K)
-    (sqrtV : List F → List F) (negInv : F → F) (re im : F → K) (o : Out F F)
-    (hrows : o.vecs.rows = (usedCols n Kc).length) (hcols : o.vecs.ncols = min num (n - 2))
-    (hvals : (sqrtV o.vals).length = min num (n - 2)) (hnum : num ≤ n - 2) :
+    (hrows : o.vecs.rows = (usedCols n Kc).length) (hvals : (sqrtV o.vals).length ≤ o.vecs.ncols) :
     ∃ r, (freq n num true sort reduced Kc Mc sqrtV negInv re im (some o)).2 = .ok r :=
-  (freq_sparse_shape_aux n num sort reduced Kc Mc sqrtV negInv re im o hrows).2
-    (Or.inl (by omega)) (by omega)
+  freq_sparse_total_aux n num sort reduced Kc Mc sqrtV negInv re im o hrows hvals
 
-/-- Counter-example to "every quantity is returned" with the default `num_eigvalues = 25`: sparse path,
-6 amplitudes, `k = min(25, 4) = 4`, `eigs` returns a 6×4 block: shape mismatch `(6,4)` vs `(6,25)`. -/
-theorem freq_shapes_counterexample :
-    (freq 6 25 true true false cexK cexM (fun zs => zs) (fun x => -1 / x) id (fun _ => 0)
-      (some ⟨[9, 49, 100, 225], cexBlock 6 4⟩)).2 = .error (.shapeMismatch (6, 4) (6, 25)) :=
-  freq_sparse_cex
+/-- The residual precondition is met by the glue itself (/repo d870371: `k = min(k, N-2)` after
+`remove_null_cols`): `eigs` needs `0 < k < N-1`, which holds whenever `num ≥ 1`, `n ≥ 3` and at least three
+amplitudes are active. -/
+theorem freq_request_in_arpack_range (n num nred : Nat) (hnum : 1 ≤ num) (hn : 3 ≤ n) (hred : 3 ≤ nred) :
+    0 < freqK n num nred ∧ freqK n num nred < (nred : Int) - 1 :=
+  freq_request_in_range_aux n num nred hnum hn hred
+
+/-- Regression instance of the repaired defect: sparse path, 6 amplitudes, default 25 requested: `k = 4`,
+the 6×4 block and its 4 frequencies are returned. -/
+theorem freq_repaired_instance_returns :
+    ((freq 6 25 true true false cexK cexM (fun zs => zs) (fun x => -1 / x) id (fun _ => 0)
+      (some ⟨[9, 49, 100, 225], cexBlock 6 4⟩)).2.toOption.map fun r => (r.vecs.shape, r.vals)) =
+      some ((6, 4), [9, 49, 100, 225]) :=
+  freq_repaired_instance
 
 /-- Refutation of "returned" for EVERY input of the dense `reduced_dof=True` branch with at least two
 massive amplitudes: either `column_stack` fails (`r ≡ 2 mod 3`) or `eigvecs[check, :] = peigvecs` assigns
